@@ -197,6 +197,10 @@ func genAction(rt *rapid.T, i int, o genOpts, sponsor int, forceFail bool) fixtu
 			break
 		}
 		ol := fmt.Sprintf("%so%d.", lbl, j)
+		if rapid.IntRange(0, 11).Draw(rt, ol+"who") == 0 {
+			a.Ops = append(a.Ops, fixture.Op{Kind: fixture.OpWho})
+			continue
+		}
 		if o.yields && rapid.IntRange(0, 4).Draw(rt, ol+"yield") == 0 {
 			a.Ops = append(a.Ops, fixture.Op{Kind: fixture.OpYield, Val: []byte{rapid.SampledFrom([]byte{1, 3, 20, 200}).Draw(rt, ol+"yn")}})
 			continue
@@ -241,6 +245,13 @@ func genTx(rt *rapid.T, i int, rules RulesSpec, blockTime int64, o genOpts) fixt
 		Expiry:      1000 * rapid.Int64Range(lo, hi).Draw(rt, lbl+"expiry"),
 		MaxFee:      rapid.SampledFrom([]uint64{0, 1, 1 << 40, ^uint64(0)}).Draw(rt, lbl+"maxfee"),
 		AuthCompute: rapid.SampledFrom([]uint64{0, 1, 5}).Draw(rt, lbl+"authcompute"),
+	}
+	if rapid.IntRange(0, 3).Draw(rt, lbl+"sponsored") == 0 {
+		// a sponsored tx: the actions run for another address than the one that pays
+		ac := rapid.IntRange(0, nSponsors+1).Draw(rt, lbl+"actor")
+		if ac != sp {
+			tx.Actor = &ac
+		}
 	}
 	maxA := int(rules.MaxActions)
 	if maxA > 4 {
